@@ -876,6 +876,50 @@ def pair8d_reversal_keeps_shown_key(P, R, L, rule="PAIR-8"):
             ("cached_user_key is overwritten on the reversal path (line %s)" % bad[0] if bad else "helper sites %d, direction edges %d" % (len(hs), len(e))))
 
 
+# ------------------------------------------------------------------------------------------- PAIR-8 the skip flag of the forward search
+SKIP_FLAG = (("<iterator::DatabaseIterator as iterator::RainDbIterator>::seek", False),
+             ("<iterator::DatabaseIterator as iterator::RainDbIterator>::seek_to_first", False),
+             ("<iterator::DatabaseIterator as iterator::RainDbIterator>::next", True))
+
+
+def _none_store(b, st):
+    rv = st["rv"]
+    return (rv["k"] == "aggregate" and rv.get("variant") == "None") or \
+        (rv["k"] == "use" and any(o.kind == "agg" and (o.name or "").endswith("None") for o in origins(b, rv["ops"][0])) and
+         not any(o.kind == "agg" and (o.name or "").endswith("Some") for o in origins(b, rv["ops"][0])))
+
+
+def pair8e_skip_flag_matches_the_move(P, R, L, rule="PAIR-8"):
+    """find_next_client_entry(initial_is_skipping): `true` means `skip every record up to and including cached_user_key`.  That is
+    right when the client steps OFF a key (next: the saved key is the key being left) and wrong when it POSITIONS (seek,
+    seek_to_first: the first visible record at or after the position must be shown, and the saved key may be a leftover of an
+    earlier backward move or of a seek past the end - the search would skip visible keys up to it).  Decided per call site: the
+    flag is the constant the move needs; a positioning move may also pass `true` once it has cleared the saved key."""
+    helper = "iterator::DatabaseIterator::find_next_client_entry"
+    for fn, want in SKIP_FLAG:
+        b = P.body(fn)
+        if b is None:
+            R.missing_anchor(rule, fn)
+            continue
+        R.analysed(b)
+        sites = [c for c in b.calls() if not b.is_cleanup(c.bb) and c.name == helper and len(c.args) == 2]
+        R.floor(rule, "forward-search calls in " + fn, len(sites), 1)
+        for c in sites:
+            os_ = origins(b, c.args[1])
+            vals = {str(o.name).lower() for o in os_ if o.kind == "const"}
+            known = bool(os_) and all(o.kind == "const" for o in os_) and vals <= {"true", "false", "0", "1"}
+            flag = None if not known or len({v in ("true", "1") for v in vals}) != 1 else (vals & {"true", "1"} != set())
+            ok = flag is want
+            if not ok and want is False and flag is True:
+                nones = [bb for (bb, i, st) in field_stores(b, "cached_user_key") if _none_store(b, st)]
+                somes = [bb for (bb, i, st) in field_stores(b, "cached_user_key") if not _none_store(b, st)]
+                ok = bool(nones) and b.must_pass(c.bb, through_nodes=nones) and \
+                    not any(s in b.reachable(n) and c.bb in b.reachable(s) for n in nones for s in somes)
+            R.check(rule, fn + "|skip-flag", ok, c.where(),
+                    "find_next_client_entry(%s)%s" % (str(want).lower(), "" if want else " (or `true` after the saved key was cleared)"),
+                    "flag = %s" % ("not a constant" if flag is None else str(flag).lower()))
+
+
 # ------------------------------------------------------------------------------------------- SEP-1 a shortened index key is used only when it is shorter AND larger
 SEP_FUNCTIONS = ["<&key::InternalKey as utils::bytes::BinarySeparable>::find_shortest_separator",
                  "<&key::InternalKey as utils::bytes::BinarySeparable>::find_shortest_successor"]
@@ -1173,6 +1217,31 @@ def grd15b_filter_block_name_carries_the_policy(P, R, L, rule="GRD-15"):
                     elif o.kind == "agg" and o.extra is not None:
                         nxt += list(o.extra[1]["rv"].get("ops", []))
             todo = nxt
+    if on_param and not flows:
+        # the builder form: `let mut s = String::from(PREFIX); s.push_str(&name); s` - the name reaches the result through a call
+        # that takes `&mut s` for a local s of the result's chain
+        def _mut_target(op):
+            if op["k"] not in ("copy", "move") or op["pl"]["p"]:
+                return None
+            for d in b.defs().get(op["pl"]["l"], []):
+                if d[0] == "stmt" and d[3]["rv"]["k"] == "ref" and d[3]["rv"].get("mut") and not d[3]["rv"]["pl"]["p"]:
+                    return d[3]["rv"]["pl"]["l"]
+            return None
+        chain, todo = {0}, [0]
+        while todo:
+            l = todo.pop()
+            for d in b.defs().get(l, []):
+                if d[0] == "stmt" and d[3]["rv"]["k"] == "use" and d[3]["rv"]["ops"][0]["k"] in ("copy", "move") and not d[3]["rv"]["ops"][0]["pl"]["p"]:
+                    m = d[3]["rv"]["ops"][0]["pl"]["l"]
+                    if m not in chain:
+                        chain.add(m)
+                        todo.append(m)
+        for c in b.calls():
+            if b.is_cleanup(c.bb) or not c.args or _mut_target(c.args[0]) not in chain:
+                continue
+            for a in c.args[1:]:
+                if any(o.kind == "call" and o.site is not None and any(o.site.bb == n.bb for n in on_param) for o in origins(b, a)):
+                    flows = True
     R.check(rule, fn + "|name-carries-the-policy", bool(on_param) and flows, where(b),
             "the returned name derives from FilterPolicy::get_name() of the policy argument", "ok" if on_param and flows else
             "get_name calls on the argument: %d, flows into the result: %s" % (len(on_param), flows))
@@ -1189,7 +1258,11 @@ def ord10b_worker_leaves_only_on_terminate(P, R, L, rule="ORD-10b"):
     last drain of the channel and its look at the flag) - nobody clears the scheduled flag and closing the database never
     returns.  Decided flag-sensitively from the entry of the thread body: every return passes the Terminate edge of the match on
     the task kind."""
-    b = P.body(WORKER_LOOP)
+    # the thread body: THE closure of CompactionWorker::new that receives from the task channel (closures are numbered in source
+    # order - the number is not part of its identity)
+    cands = [bd for p_, bd in sorted(P.bodies.items()) if p_.startswith("compaction::worker::CompactionWorker::new::{closure#") and p_.endswith("}") and
+             any((c.name or "").endswith("Receiver::recv") and not bd.is_cleanup(c.bb) for c in bd.calls())]
+    b = cands[0] if len(cands) == 1 else None
     if b is None:
         return R.missing_anchor(rule, WORKER_LOOP)
     R.analysed(b)
